@@ -369,7 +369,7 @@ fn gen_rtu_frame(rng: &mut Rng, request: bool, slave: Option<u8>) -> Vec<u8> {
     loop {
         let pdu = if request {
             match rng.below(10) {
-                0 => vec![*rng.pick(&[0x07u8, 0x0B, 0x0C])],
+                0 => vec![*rng.pick(&[0x07u8, 0x0B, 0x0C, 0x11])],
                 1 => vec![0x18, rng.u8(), rng.u8()],
                 _ => {
                     let r = gen_request(rng, None);
@@ -385,7 +385,23 @@ fn gen_rtu_frame(rng: &mut Rng, request: bool, slave: Option<u8>) -> Vec<u8> {
         } else {
             match rng.below(10) {
                 0 => vec![(rng.u8() % 0x2B) + 0x81, rng.u8()],
-                1 => vec![0x07, rng.u8()],
+                1 => match rng.below(3) {
+                    0 => vec![0x07, rng.u8()],
+                    1 => {
+                        // Get Comm Event Log: a byte count and that many bytes
+                        let n = rng.range(0, 40);
+                        let mut p = vec![0x0C, n as u8];
+                        p.extend(rng.bytes(n));
+                        p
+                    }
+                    _ => {
+                        // Read FIFO Queue: the only reply with a 16-bit byte count
+                        let n = *rng.pick(&[0usize, 1, 2, 4, 6, 30, 62, 250]);
+                        let mut p = vec![0x18, (n >> 8) as u8, n as u8];
+                        p.extend(rng.bytes(n));
+                        p
+                    }
+                },
                 2 => vec![0x0B, rng.u8(), rng.u8(), rng.u8(), rng.u8()],
                 _ => {
                     let r = gen_response(rng, None);
@@ -492,6 +508,43 @@ pub fn gen_c04(out: &mut Out, rng: &mut Rng, thorough: bool) {
             let mut d = frame.clone();
             d[bit / 8] ^= 1 << (bit % 8);
             send(out, rng, &d);
+        }
+        // … and every single-bit corruption of a frame that the same decoder has just delivered
+        // intact (a decoder that remembers what it verified must not wave a look-alike through)
+        for bit in 0..frame.len() * 8 {
+            let mut d = frame.clone();
+            d[bit / 8] ^= 1 << (bit % 8);
+            let mut s = frame.clone();
+            if bit % 3 == 0 {
+                s.extend(&frame);
+            }
+            s.extend(&d);
+            s.extend(&tail);
+            let evs = if bit % 2 == 0 { chunks_tok(&[frame.clone(), s[frame.len()..].to_vec()]) } else { one_chunk_or_random(rng, &s) };
+            monitor_line(out, &format!("stream {codec} {evs}"));
+        }
+        // … and a longer frame that ends like the frame delivered before it (same last PDU bytes,
+        // same CRC field), for every sample: [slave, fc, count, filler…, tail of the previous frame]
+        for _ in 0..8 {
+            let n = frame.len();
+            let keep = rng.range(3, n.min(9)); // last PDU bytes + CRC field of the delivered frame
+            let fill = rng.range(0, 6);
+            let slave = if rng.bool() { frame[0] } else { rng.u8() };
+            let body_len = fill + keep - 2; // what follows the count byte, before the CRC field
+            let mut d = if request {
+                // a write-multiple-registers request whose byte count covers filler and tail
+                let q = (body_len / 2) as u8;
+                vec![slave, 0x10, rng.u8(), rng.u8(), 0x00, q, body_len as u8]
+            } else {
+                vec![slave, *rng.pick(&[0x03u8, 0x04, 0x01, 0x17]), body_len as u8]
+            };
+            d.extend(rng.bytes(fill));
+            d.extend(&frame[n - keep..]);
+            let mut s = frame.clone();
+            s.extend(&d);
+            s.extend(&tail);
+            let evs = one_chunk_or_random(rng, &s);
+            monitor_line(out, &format!("stream {codec} {evs}"));
         }
         // all 65536 values of the CRC field (thinned in the quick tier)
         let n = frame.len();
